@@ -602,6 +602,35 @@ def rules(ctx: Ctx) -> None:
                        f"`{u(n)}` moves work to another thread or process: the scoped configuration of the caller (default schema, flags) is not visible there")
     ctx.ob("R15.7", "no-worker-threads:scanned", True, "sqllineage/", f"{n_workers} use(s) of thread / process pools found in the package", trivial=True)
 
+    # ---- R15.8 __enter__ marks the thread only under "not marked yet" (else it refuses): a second scope on the same thread would otherwise end
+    # the first one's settings when it exits.  __exit__ clears before anything that can fail (formatting the exception it was left by ...)
+    ent, exi = c.methods.get("__enter__"), c.methods.get("__exit__")
+    if ent is None or exi is None:
+        raise AnalysisError("__enter__ / __exit__ of the configuration loader not found")
+    ctx.touched(ent, exi)
+    from ..cfg import flow as _flow15b
+    efl = _flow15b(prog, ent)
+    for k in [x for x in prog.walk_fn(ent) if isinstance(x, ast.Call) and isinstance(x.func, ast.Attribute) and x.func.attr == "add" and is_self_attr(x.func.value)]:
+        st_attr = x_attr = k.func.value.attr
+        guarded = any((" not in " in t and t.endswith(f"self.{st_attr}") and p) or (" in " in t and " not in " not in t and t.endswith(f"self.{st_attr}") and not p) for t, p in efl.facts_for(k))
+        ctx.ob("R15.8", f"enter:marks-only-an-unmarked-thread:{st_attr}", guarded, loc(ent.mod, k), f"`{u(k)[:60]}` " + ("runs only when the thread is not in a scope yet" if guarded else "runs whether or not the thread is already in a scope"))
+    cleanup_seen = False
+    for st in exi.node.body:
+        if isinstance(st, ast.Expr) and isinstance(st.value, ast.Constant):
+            continue
+        does_cleanup = any(isinstance(x, ast.Call) and isinstance(x.func, ast.Attribute) and x.func.attr in ("pop", "remove", "discard", "clear") and is_self_attr(x.func.value) for x in ast.walk(st)) or any(
+            isinstance(x, ast.Delete) for x in ast.walk(st))
+        if does_cleanup:
+            cleanup_seen = True
+            continue
+        if cleanup_seen:
+            break
+        risky = [x for x in ast.walk(st) if (isinstance(x, ast.Subscript) and isinstance(x.ctx, ast.Load)) or (isinstance(x, ast.Call) and not (isinstance(x.func, ast.Attribute) and is_self_attr(x.func.value) is False and u(x.func).startswith("self.get_")))
+                 or (isinstance(x, ast.Attribute) and isinstance(x.ctx, ast.Load) and isinstance(x.value, ast.Name) and x.value.id in exi.params()[1:])]
+        risky = [x for x in risky if not (isinstance(x, ast.Call) and u(x.func) in ("self.get_ident", "threading.get_ident"))]
+        ctx.ob("R15.8", "exit:nothing-that-can-fail-before-the-clean-up", not risky, loc(exi.mod, st),
+               f"`{u(st)[:60]}` precedes the clean-up" + (f" and evaluates `{u(risky[0])[:40]}`, which can raise: the overrides and the in-scope mark then stay behind" if risky else " and cannot fail"))
+
 
 def _rooted_in_container(e: ast.AST, containers: dict[str, str]) -> bool:
     n = e
